@@ -32,11 +32,39 @@ class StubRouter:
         self.log.append((sender, message))
 
 
+class FakeStdin:
+    """What the TTY handler reads from: readline() hands over whatever chunk the harness fed ('' = end of input)."""
+
+    def __init__(self):
+        self.q = asyncio.Queue()
+
+    def feed(self, text):
+        self.q.put_nowait(text)
+
+    def feed_eof(self):
+        self.q.put_nowait("")
+
+    async def readline(self):
+        return await self.q.get()
+
+
+class FakeStdout:
+    def __init__(self):
+        self.chunks = []
+
+    async def write(self, data):
+        self.chunks.append(data)
+
+    async def flush(self):
+        pass
+
+
 class Result:
     def __init__(self, n):
         self.delivered = [[] for _ in range(n)]      # per connection: (feed step, view or exception)
         self.after = []                              # per feed step: (connection, chars fed so far to it, deliveries of it so far)
         self.errors = []
+        self.shadow = []                             # per feed step: (connection, deliveries of a bare Buffer fed the same pieces, its retained length, the handler's retained length)
         self.foreign = []                            # deliveries attributed to a connection that does not exist
 
 
@@ -50,47 +78,56 @@ async def _run(kind, streams, schedule, eof_order, for_blobs):
     readers, handlers, tasks = [], [], []
     step = [0]
     try:
-        if kind == "server-tcp":
-            from indi.transport.server.tcp import ConnectionHandler
-            router = StubRouter()
-            for i in range(n):
+        kinds = [kind] * n if isinstance(kind, str) else list(kind)
+        router = StubRouter()
+        inbox = [[] for _ in range(n)]
+        for i, k in enumerate(kinds):
+            if k == "server-tcp":
+                from indi.transport.server.tcp import ConnectionHandler
                 r = asyncio.StreamReader()
                 h = ConnectionHandler(r, FakeWriter(f"s{i}"), router)
-                readers.append(r)
-                handlers.append(h)
                 tasks.append(loop.create_task(h.wait_for_messages()))
+            elif k == "server-tty":
+                from indi.transport.server.tty import ConnectionHandler
+                r = FakeStdin()
+                h = ConnectionHandler(router, r, FakeStdout())
+                tasks.append(loop.create_task(h.wait_for_messages()))
+            else:
+                from indi.transport.client.tcp import ConnectionHandler
+                r = asyncio.StreamReader()
+                h = ConnectionHandler(r, FakeWriter(f"c{i}"), inbox[i].append, for_blobs=bool(for_blobs and for_blobs[i]))
+                tasks.append(loop.create_task(h.wait_for_messages()))
+            readers.append(r)
+            handlers.append(h)
 
-            def collect():
-                while router.log:
-                    sender, m = router.log.pop(0)
+        def collect():
+            while router.log:
+                sender, m = router.log.pop(0)
+                try:
+                    v = view_lib(m)
+                except Exception as e:
+                    v = ("unreadable", repr(e))
+                if sender in handlers:
+                    res.delivered[handlers.index(sender)].append((step[0], v))
+                else:
+                    res.foreign.append((step[0], v))
+            for i in range(n):
+                while inbox[i]:
+                    m = inbox[i].pop(0)
                     try:
                         v = view_lib(m)
                     except Exception as e:
                         v = ("unreadable", repr(e))
-                    if sender in handlers:
-                        res.delivered[handlers.index(sender)].append((step[0], v))
-                    else:
-                        res.foreign.append((step[0], v))
-        else:
-            from indi.transport.client.tcp import ConnectionHandler
-            inbox = [[] for _ in range(n)]
-            for i in range(n):
-                r = asyncio.StreamReader()
-                h = ConnectionHandler(r, FakeWriter(f"c{i}"), inbox[i].append, for_blobs=bool(for_blobs and for_blobs[i]))
-                readers.append(r)
-                handlers.append(h)
-                tasks.append(loop.create_task(h.wait_for_messages()))
+                    res.delivered[i].append((step[0], v))
 
-            def collect():
-                for i in range(n):
-                    while inbox[i]:
-                        m = inbox[i].pop(0)
-                        try:
-                            v = view_lib(m)
-                        except Exception as e:
-                            v = ("unreadable", repr(e))
-                        res.delivered[i].append((step[0], v))
-
+        # a bare Buffer per connection with the threshold that kind of connection is meant to have, fed the same pieces
+        from indi.transport import Buffer
+        shadows, shadow_counts = [], [0] * n
+        for i, k in enumerate(kinds):
+            b = Buffer()
+            if k == "client-tcp" and for_blobs and for_blobs[i]:
+                b.max_buffer_size_before_frontal_cleanup = None
+            shadows.append(b)
         pos = [0] * n
         fed = [0] * n
         for ci in schedule:
@@ -101,11 +138,23 @@ async def _run(kind, streams, schedule, eof_order, for_blobs):
             pos[ci] += 1
             fed[ci] += len(piece)
             step[0] += 1
-            readers[ci].feed_data(piece.encode("latin1"))
+            if isinstance(readers[ci], FakeStdin):
+                readers[ci].feed(piece)
+            else:
+                readers[ci].feed_data(piece.encode("latin1"))
             for _ in range(3):
                 await asyncio.sleep(0)
             collect()
             res.after.append((ci, fed[ci], len(res.delivered[ci])))
+            got = []
+            shadows[ci].append(piece)
+            try:
+                shadows[ci].process(got.append)
+            except BaseException as e:          # the bare Buffer's own trouble is not this monitor's subject
+                res.shadow.append((ci, None, None, None))
+            else:
+                shadow_counts[ci] += len(got)
+                res.shadow.append((ci, shadow_counts[ci], shadows[ci].data_len, getattr(getattr(handlers[ci], "buffer", None), "data_len", None)))
             for i, t in enumerate(tasks):
                 if t.done():
                     exc = t.exception() if not t.cancelled() else None
@@ -152,3 +201,18 @@ def interleavings(rng, lengths, how):
     pool = [i for i, n in enumerate(lengths) for _ in range(n)]
     rng.shuffle(pool)
     return pool
+
+
+def differential_problems(res):
+    """[(feed step, connection, what)] where a handler did not behave like a bare Buffer fed the same pieces."""
+    out = []
+    for step, ((ci, fed, ndel), (ci2, sdel, sret, rret)) in enumerate(zip(res.after, res.shadow)):
+        if sdel is None:
+            continue
+        if ndel != sdel:
+            out.append((step, ci, f"{'fewer' if ndel < sdel else 'more'}-deliveries-than-a-bare-buffer",
+                        f"after feed step {step} connection {ci} had delivered {ndel} messages, a bare Buffer fed the same pieces {sdel}"))
+        elif rret is not None and rret > sret:
+            out.append((step, ci, "retains-more-than-a-bare-buffer",
+                        f"after feed step {step} connection {ci} retains {rret} characters, a bare Buffer fed the same pieces {sret}"))
+    return out
